@@ -23,6 +23,17 @@ ENGINES = [
 
 # property id -> dict(level, text, note, technique, engine, design)
 CLAIMS = {
+    "C01": dict(
+        level="other", engine="engine A (cfg.py)",
+        text="Store discipline every spelling funnels into, decided for every argument class instantiated by the "
+             "driver (all destination kinds): effect facts show that only assign() (and helpers called only from it) "
+             "writes through a destination reference, so unused arguments leave their variables alone; def-use of every "
+             "store shows it is boost::lexical_cast<destination type> of the incoming value or of its formatted copy, "
+             "formatters run before the conversion; who-may-call shows a single funnel into assign(); lookup structure "
+             "shared with C05. The equivalence of all command-line spellings (tokenisation by the ArgListIterator state "
+             "machine) is a relation over an exponential input space and is NOT decided.",
+        note="trusts clang AST/CFG, boost::lexical_cast; spelling equivalence not covered",
+        technique="static analysis: who-may-write effect facts, def-use of stores, who-may-call"),
     "C02": dict(
         level="other", engine="engine A (cfg.py)",
         text="Every declared rule is shown to have an enforcing call on every CFG path to a successful return: "
@@ -70,6 +81,30 @@ CLAIMS = {
         note="trusts clang AST/CFG; parsing of key specification strings is not decided",
         also=("engine B (boolshape.py)",),
         technique="static analysis: CFG path rules + exhaustive truth table of the key algebra"),
+    "C06": dict(
+        level="other", engine="engine A (cfg.py)",
+        text="Sibling agreement over all list-splitting assign() instantiations (sequence, set, queue/stack, key-value, "
+             "C array, std::array, tuple, bitset, vector<bool>, DynamicBitset): the order clear (once, flag reset) -> "
+             "(check -> format -> convert -> duplicate test -> add)* -> sort (after the loop, if requested) is decided by "
+             "reachability inside one iteration of the loop CFG; the trait constants of every ContainerAdapter "
+             "specialisation are compared with the shape of its sort()/contains()/addValue()/clear(); capacity and growth "
+             "of fixed-size destinations by Engine C; duplicate test over the filled prefix; routing of free values by "
+             "guards. Equality of the final container with the fold over all cuts is not decided.",
+        note="trusts clang AST/CFG; standard containers and boost::tokenizer behave as documented",
+        also=("engine C (lin.py, bounds.py)",),
+        technique="static analysis: sibling agreement on per-iteration CFG order, trait/method agreement, relational bounds"),
+    "C07": dict(
+        level="other", engine="engine B (boolshape.py)",
+        text="Same-path rules (must-pass-through, who-may-call, dominance) show that file, environment and string "
+             "sources are split by make_arg_array() and evaluated by the one iterateArguments()/evalSingleArgument() "
+             "evaluator under a scoped read-mode flag; the scanner of splitString() is evaluated abstractly for all 60 "
+             "combinations of scanner state x character class x word-empty and the extracted transition table is "
+             "compared with the facts from which split(join(escape(ws))) == ws follows for backslash escaping - a "
+             "finite check that is valid for all strings; argv capacity by Engine C. Other quoting disciplines and "
+             "value equality between sources are not decided.",
+        note="trusts clang AST/CFG; std::string append/clear semantics; round trip claimed for backslash escaping only",
+        also=("engine A (cfg.py)", "engine C (lin.py, bounds.py)"),
+        technique="static analysis: abstract evaluation of the scanner's transition table + CFG path rules"),
     "C08": dict(
         level="other", engine="engine A (cfg.py)",
         text="Sibling agreement between group evaluation and stand-alone evaluation: per-member must-pass-through "
